@@ -418,8 +418,11 @@ M("C10-copy-skips-members", "C10", "src/cppparser/cppStructType.cxx",
   "    if (!instance->_type->is_copy_constructible()) {\n      return false;\n    }", "    if (!instance->_type->is_copy_constructible()) {\n      continue;\n    }",
   expect="R10.1|is_copy_constructible|M")
 M("C10-abstract-default-constructible", "C10", "src/cppparser/cppStructType.cxx",
-  "is_default_constructible(CPPVisibility min_vis) const {\n  if (is_abstract()) {\n    return false;\n  }\n", "is_default_constructible(CPPVisibility min_vis) const {\n",
-  expect="R10.1|is_default_constructible|X")
+  "is_default_constructible() const {\n  // An abstract class cannot be created as a complete object (it can as the\n  // base-class sub-object of a derived class, see the overload below).\n  if (is_abstract()) {\n    return false;\n  }\n", "is_default_constructible() const {\n",
+  expect="R10.1|is_default_constructible()|X:complete-object")
+M("C10-abstract-base-makes-derived-unconstructible", "C10", "src/cppparser/cppStructType.cxx",
+  "is_default_constructible(CPPVisibility min_vis) const {\n", "is_default_constructible(CPPVisibility min_vis) const {\n  if (is_abstract()) {\n    return false;\n  }\n",
+  expect="R10.1|is_default_constructible(min_vis)|X:not-for-sub-objects")
 M("C10-access-flipped", "C10", "src/cppparser/cppStructType.cxx",
   "    if (destructor->_vis > min_vis) {\n      // Yes, but it's inaccessible.", "    if (destructor->_vis < min_vis) {\n      // Yes, but it's inaccessible.",
   expect="R10.1|is_destructible|A:destructor")
